@@ -149,8 +149,8 @@ func runGatedRejectedUpload(e *c07Env, point string, caseNo int) {
 	case evA.Status != 200:
 		r.Violation(sig("C07", backendClass(e.kind), "unexpected-status", trig), fmt.Sprintf("%s: a correct PUT of %s parked at %s was answered %d after a concurrent upload of the same key was refused (%s); GET now: %s", e.kind, key, point, evA.Status, respB, fin), nil)
 	default:
-		if id, ok := e.reg.idOfBody(fin.Body); fin.Status != 200 || !ok || id != evA.Arg {
-			r.Violation(sig("C07", backendClass(e.kind), "not-linearizable", trig), fmt.Sprintf("%s: PUT of %s (upload %d) was acknowledged, the concurrent upload refused; GET answers %s with the body of upload %d", e.kind, key, evA.Arg, fin, id), nil)
+		if id, ok := e.reg.idOfBody(fin.Body); fin.Status != 200 || !ok || id != evA.Arg || !e.reg.headersOK(id, fin.Header) {
+			r.Violation(sig("C07", backendClass(e.kind), "not-linearizable", trig), fmt.Sprintf("%s: PUT of %s (upload %d) was acknowledged, the concurrent upload refused; GET answers %s with the body of upload %d (Content-Type %q, x-amz-meta-upload %q)", e.kind, key, evA.Arg, fin, id, fin.Header.Get("Content-Type"), fin.Header.Get("X-Amz-Meta-Upload")), nil)
 		}
 	}
 }
